@@ -5,9 +5,9 @@
 extern bool g_lows_ok; extern int g_lows_calls;
 bool CPubKey::CheckLowS(const verif_bytes& vchSig) { g_lows_calls = g_lows_calls + 1; return g_lows_ok; }
 bool g_lows_ok; int g_lows_calls;
-extern int g_fad_calls; extern int g_fad_result[24];
-int FindAndDelete(CScript& script, const CScript& b) { int k = g_fad_calls; VERIF_LIMIT(k < 24, "FindAndDelete oracle call log capacity"); g_fad_calls = k + 1; return g_fad_result[k]; }
-int g_fad_calls; int g_fad_result[24];
+extern int g_fad_calls; extern int g_fad_result[VERIF_ORACLE_N];
+int FindAndDelete(CScript& script, const CScript& b) { int k = g_fad_calls; VERIF_LIMIT(k < VERIF_ORACLE_N, "FindAndDelete oracle call log capacity"); g_fad_calls = k + 1; return g_fad_result[k]; }
+int g_fad_calls; int g_fad_result[VERIF_ORACLE_N];
 CScript& CScript::operator<<(const verif_bytes& b) { return *this; }   // only builds the argument of FindAndDelete
 // --pretend-valid tables with (at most) one listed pair S0:P0
 extern bool g_mock_on; extern verif_bytes g_mock_sig, g_mock_key;
